@@ -37,9 +37,9 @@ theorem inv_snapFile (h : Inv c s) (ht : s.todo = .snapFile :: rest) : Inv c { e
   simp only [exec]
   split
   · rename_i hsn
-    exact inv_grow (s := s) h ht (by decide) (by decide) (by decide) (by decide) (by decide) (fun _ => ⟨by decide, by decide⟩) (fun _ => by decide)
+    exact inv_grow (s := s) h ht (by decide) (by decide) (by decide) (fun _ => ⟨by decide, by decide⟩) (fun _ => by decide)
       (fun _ _ => ⟨by decide, by decide, by decide⟩) (DiskGrows.rfl' _) (fun _ hc => by rw [hsn] at hc; cases hc)
-  · exact inv_grow (s := s) h ht (by decide) (by decide) (by decide) (by decide) (by decide) (fun _ => ⟨by decide, by decide⟩) (fun _ => by decide)
+  · exact inv_grow (s := s) h ht (by decide) (by decide) (by decide) (fun _ => ⟨by decide, by decide⟩) (fun _ => by decide)
       (fun _ _ => ⟨by decide, by decide, by decide⟩) (DiskGrows.addFile _ _)
       (fun _ _ => ⟨fun _ => by simp, fun hc => absurd (by decide) hc⟩)
 
@@ -49,9 +49,9 @@ theorem inv_snapWalWrite (h : Inv c s) (ht : s.todo = .snapWalWrite :: rest) : I
   simp only [exec]
   split
   · rename_i hsn
-    exact inv_grow (s := s) h ht (by decide) (by decide) (by decide) (by decide) (by decide) (fun _ => ⟨by decide, by decide⟩) (fun _ => by decide)
+    exact inv_grow (s := s) h ht (by decide) (by decide) (by decide) (fun _ => ⟨by decide, by decide⟩) (fun _ => by decide)
       (fun _ _ => ⟨by decide, by decide, by decide⟩) (DiskGrows.rfl' _) (fun _ hc => by rw [hsn] at hc; cases hc)
-  · exact inv_grow (s := s) h ht (by decide) (by decide) (by decide) (by decide) (by decide) (fun _ => ⟨by decide, by decide⟩) (fun _ => by decide)
+  · exact inv_grow (s := s) h ht (by decide) (by decide) (by decide) (fun _ => ⟨by decide, by decide⟩) (fun _ => by decide)
       (fun _ _ => ⟨by decide, by decide, by decide⟩) (DiskGrows.writeSnap _ _ _)
       (fun _ hsn => ⟨fun _ => ((h.rdW hw).2.2 hsn).1 (by rw [ht]; decide), fun _ => mem_writeSnap _ _ _⟩)
 
@@ -61,9 +61,9 @@ theorem inv_snapWalSync (h : Inv c s) (ht : s.todo = .snapWalSync :: rest) : Inv
   simp only [exec]
   split
   · rename_i hsn
-    exact inv_grow (s := s) h ht (by decide) (by decide) (by decide) (by decide) (by decide) (fun _ => ⟨by decide, by decide⟩) (fun _ => by decide)
+    exact inv_grow (s := s) h ht (by decide) (by decide) (by decide) (fun _ => ⟨by decide, by decide⟩) (fun _ => by decide)
       (fun _ _ => ⟨by decide, by decide, by decide⟩) (DiskGrows.rfl' _) (fun _ hc => by rw [hsn] at hc; cases hc)
-  · exact inv_grow (s := s) h ht (by decide) (by decide) (by decide) (by decide) (by decide) (fun _ => ⟨by decide, by decide⟩) (fun _ => by decide)
+  · exact inv_grow (s := s) h ht (by decide) (by decide) (by decide) (fun _ => ⟨by decide, by decide⟩) (fun _ => by decide)
       (fun _ _ => ⟨by decide, by decide, by decide⟩) (DiskGrows.flush _)
       (fun _ hsn => ⟨fun _ => ((h.rdW hw).2.2 hsn).1 (by rw [ht]; decide),
         fun _ => (DiskGrows.flush _).recs _ (((h.rdW hw).2.2 hsn).2 (by rw [ht]; decide))⟩)
@@ -106,7 +106,7 @@ theorem inv_walFlush (h : Inv c s) (ht : s.todo = .walFlush :: rest) : Inv c { e
   have htn := trig_none h (by rw [ht]; decide)
   simp only [exec]
   split
-  · refine inv_grow' (s := s) h ht (by decide) (by decide) (by decide) (by decide) (by decide) (fun _ => by decide)
+  · refine inv_grow' (s := s) h ht (by decide) (by decide) (by decide) (fun _ => by decide)
       (fun sn hsn => by rw [htn] at hsn; cases hsn) (DiskGrows.flush _) ?_ (fun hc => absurd hc (by decide))
     intro _
     refine imgs_flush h.full ?_
@@ -114,7 +114,7 @@ theorem inv_walFlush (h : Inv c s) (ht : s.todo = .walFlush :: rest) : Inv c { e
     exact ⟨by rw [hF.1], by rw [hF.1], VOk_true_of_false (s := { s with disk := s.disk.flush, todo := _ }) htn
       (VOk_skip ht (by decide) (by decide) false (fun sn hsn => by rw [htn] at hsn; cases hsn) v hF.2)⟩
   · rename_i hm
-    exact inv_grow (s := s) h ht (by decide) (by decide) (by decide) (by decide) (by decide) (fun _ => ⟨by decide, by decide⟩)
+    exact inv_grow (s := s) h ht (by decide) (by decide) (by decide) (fun _ => ⟨by decide, by decide⟩)
       (fun hc => absurd hc hm) (fun sn hsn => by rw [htn] at hsn; cases hsn) (DiskGrows.rfl' _) (fun hc => absurd hc (by decide))
 
 theorem inv_applySnap_empty (h : Inv c s) (ht : s.todo = .applySnap :: rest) (hsn : s.rd.snap.isEmpty = true) :
@@ -122,7 +122,7 @@ theorem inv_applySnap_empty (h : Inv c s) (ht : s.todo = .applySnap :: rest) (hs
   have hr := tails_eq (ht ▸ h.suf); subst hr
   have htn := trig_none h (by rw [ht]; decide)
   simp only [exec, hsn, if_true]
-  exact inv_grow (s := s) h ht (by decide) (by decide) (by decide) (by decide) (by decide) (fun hc => by rw [hsn] at hc; cases hc)
+  exact inv_grow (s := s) h ht (by decide) (by decide) (by decide) (fun hc => by rw [hsn] at hc; cases hc)
     (fun _ => by decide) (fun sn hsn => by rw [htn] at hsn; cases hsn) (DiskGrows.rfl' _) (fun hc => absurd hc (by decide))
 
 theorem inv_walSync (h : Inv c s) (ht : s.todo = .walSync :: rest) : Inv c { exec c s .walSync with todo := rest } := by
@@ -131,9 +131,9 @@ theorem inv_walSync (h : Inv c s) (ht : s.todo = .walSync :: rest) : Inv c { exe
   simp only [exec]
   split
   · rename_i hsn
-    exact inv_grow (s := s) h ht (by decide) (by decide) (by decide) (by decide) (by decide) (fun hc => by rw [hsn] at hc; cases hc)
+    exact inv_grow (s := s) h ht (by decide) (by decide) (by decide) (fun hc => by rw [hsn] at hc; cases hc)
       (fun _ => by decide) (fun sn hsn => by rw [htn] at hsn; cases hsn) (DiskGrows.rfl' _) (fun hc => absurd hc (by decide))
-  · refine inv_grow' (s := s) h ht (by decide) (by decide) (by decide) (by decide) (by decide) (fun _ => by decide)
+  · refine inv_grow' (s := s) h ht (by decide) (by decide) (by decide) (fun _ => by decide)
       (fun sn hsn => by rw [htn] at hsn; cases hsn) (DiskGrows.flush _) ?_ (fun hc => absurd hc (by decide))
     intro _
     refine imgs_flush h.full ?_
@@ -146,7 +146,7 @@ theorem inv_publishSnap_empty (h : Inv c s) (ht : s.todo = .publishSnap :: rest)
   have hr := tails_eq (ht ▸ h.suf); subst hr
   have htn := trig_none h (by rw [ht]; decide)
   simp only [exec, hsn, if_true]
-  exact inv_grow (s := s) h ht (by decide) (by decide) (by decide) (by decide) (by decide) (fun hc => by rw [hsn] at hc; cases hc)
+  exact inv_grow (s := s) h ht (by decide) (by decide) (by decide) (fun hc => by rw [hsn] at hc; cases hc)
     (fun _ => by decide) (fun sn hsn => by rw [htn] at hsn; cases hsn) (DiskGrows.rfl' _) (fun hc => absurd hc (by decide))
 
 theorem inv_trigWalWrite (h : Inv c s) (ht : s.todo = .trigWalWrite :: rest) : Inv c { exec c s .trigWalWrite with todo := rest } := by
@@ -154,10 +154,10 @@ theorem inv_trigWalWrite (h : Inv c s) (ht : s.todo = .trigWalWrite :: rest) : I
   simp only [exec]
   split
   · rename_i htn
-    exact inv_grow (s := s) h ht (by decide) (by decide) (by decide) (by decide) (by decide) (fun _ => ⟨by decide, by decide⟩)
+    exact inv_grow (s := s) h ht (by decide) (by decide) (by decide) (fun _ => ⟨by decide, by decide⟩)
       (fun _ => by decide) (fun sn hsn => by rw [htn] at hsn; cases hsn) (DiskGrows.rfl' _) (fun hc => absurd hc (by decide))
   · rename_i sn htr
-    obtain ⟨_, _, hidx, hfile, _⟩ := h.trigF sn htr
+    obtain ⟨_, _, hidx, _, hfile, _⟩ := h.trigF sn htr
     have hg := DiskGrows.writeSnap s.disk sn.index sn.term
     -- the full image after the write
     obtain ⟨v, hv, hF⟩ := h.full
@@ -172,8 +172,8 @@ theorem inv_trigWalWrite (h : Inv c s) (ht : s.todo = .trigWalWrite :: rest) : I
       · intro sn' hsn' _
         have : sn' = sn := by rw [htr] at hsn'; exact (Option.some.inj hsn').symm
         rw [this]; exact hbase
-    refine inv_disk (s := s) h ht (by decide) (by decide) (by decide) (by decide) (by decide) (fun _ => by decide)
-      (fun _ _ => by decide) (safe_grows hg h.safe) ⟨v', by rw [full_write1]; exact hv', hF'⟩ ?_ hg.files ?_ (fun hc => absurd hc (by decide))
+    refine inv_disk (s := s) h ht (by decide) (by decide) (L_skip ht (by decide) (by decide))
+      (lastP_skip ht (by decide) (by decide) (fun _ => by decide)) (fun _ _ => by decide) (safe_grows hg h.safe) ⟨v', by rw [full_write1]; exact hv', hF'⟩ ?_ hg.files ?_ (fun hc => absurd hc (by decide))
     · intro hs
       have hs' := Settled_skip ht hs (fun _ => by decide) (fun _ => by decide)
       refine imgs_write1 (P := ImgOk s) _ (h.imgs hs') ?_ ⟨v', hv', ?_⟩
@@ -189,10 +189,10 @@ theorem inv_trigWalSync (h : Inv c s) (ht : s.todo = .trigWalSync :: rest) : Inv
   simp only [exec]
   split
   · rename_i htn
-    exact inv_grow (s := s) h ht (by decide) (by decide) (by decide) (by decide) (by decide) (fun _ => ⟨by decide, by decide⟩)
+    exact inv_grow (s := s) h ht (by decide) (by decide) (by decide) (fun _ => ⟨by decide, by decide⟩)
       (fun _ => by decide) (fun sn hsn => by rw [htn] at hsn; cases hsn) (DiskGrows.rfl' _) (fun hc => absurd hc (by decide))
   · rename_i sn htr
-    refine inv_grow' (s := s) h ht (by decide) (by decide) (by decide) (by decide) (by decide) (fun _ => by decide)
+    refine inv_grow' (s := s) h ht (by decide) (by decide) (by decide) (fun _ => by decide)
       (fun _ _ => ⟨by decide, by decide⟩) (DiskGrows.flush _) ?_ (fun hc => absurd hc (by decide))
     intro _
     refine imgs_flush h.full ?_
@@ -206,7 +206,7 @@ theorem inv_trigCompact_none (h : Inv c s) (ht : s.todo = .trigCompact :: rest) 
     Inv c { exec c s .trigCompact with todo := rest } := by
   have hr := tails_eq (ht ▸ h.suf); subst hr
   simp only [exec, htn]
-  exact inv_grow (s := s) h ht (by decide) (by decide) (by decide) (by decide) (by decide) (fun _ => ⟨by decide, by decide⟩)
+  exact inv_grow (s := s) h ht (by decide) (by decide) (by decide) (fun _ => ⟨by decide, by decide⟩)
     (fun _ => by decide) (fun sn hsn => by rw [htn] at hsn; cases hsn) (DiskGrows.rfl' _) (fun hc => absurd hc (by decide))
 
 end ReadyLoop
